@@ -95,7 +95,9 @@ def check_expm(case, rec):
     v0 = v.copy()
     with warnings.catch_warnings():
         warnings.simplefilter('ignore')
-        y = ptn.expm_krylov(lambda x: A @ x, v, dt, m, hermitian=flag)
+        # the flag in its legal forms (bool, numpy.bool_, int)
+        fform = [flag, np.bool_(flag), int(flag)][case['seed'] % 3]
+        y = ptn.expm_krylov(lambda x: A @ x, v, dt, m, hermitian=fform)
     require(v.tobytes() == v0.tobytes(), 'expm_krylov modified the start vector')
     require(y.shape == (n,) and np.all(np.isfinite(y)), 'wrong shape / non-finite output', shape=y.shape)
     nv = np.linalg.norm(v)
